@@ -1,0 +1,41 @@
+//go:build verif
+
+package keeper
+
+// Contracts for the deductive verifier in /verif (govc). Comment-only; compiled only with -tags verif.
+
+// ---- C41: a transfer on a rate-limited path is accepted only within the quota, and then the stored flow grows by
+// exactly its amount
+
+//@ spec func rateLimitKey(denom string, channel string) string = str(types.RateLimitKeyPrefix) + denom + channel
+//@ spec func storedRateLimit(s KV, denom string, channel string) types.RateLimit = unmarshalAs(get(s, rateLimitKey(denom, channel)), types.RateLimit)
+//@ spec func hasRateLimit(s KV, denom string, channel string) bool = has(s, rateLimitKey(denom, channel)) && len(get(s, rateLimitKey(denom, channel))) > 0
+
+//@ contract (*Keeper).GetRateLimit
+//@   ensures found: result1 == hasRateLimit(kv(ctx, k.storeService), denom, channelID)
+//@   ensures value: result1 ==> result0 == storedRateLimit(kv(ctx, k.storeService), denom, channelID)
+
+//@ contract (*Keeper).SetRateLimit
+//@   modifies world(ctx)
+//@   ensures stored: get(kv(ctx, k.storeService), rateLimitKey(rateLimit.Path.Denom, rateLimit.Path.ChannelOrClientId)) == marshalOf(rateLimit) && has(kv(ctx, k.storeService), rateLimitKey(rateLimit.Path.Denom, rateLimit.Path.ChannelOrClientId))
+//@   ensures one_key: onlyKeyChanged(old(world(ctx)), world(ctx), rateLimitKey(rateLimit.Path.Denom, rateLimit.Path.ChannelOrClientId))
+
+//@ contract (*Keeper).CheckRateLimitAndUpdateFlow
+//@   let S0 = kv(ctx, k.storeService)
+//@   let denom = packetInfo.Denom
+//@   let channel = packetInfo.ChannelID
+//@   let amount = packetInfo.Amount
+//@   let RL = storedRateLimit(S0, denom, channel)
+//@   let F0 = deref(RL.Flow)
+//@   let Q = deref(RL.Quota)
+//@   let limited = hasRateLimit(S0, denom, channel) && !k.IsAddressPairWhitelisted(ctx, packetInfo.Sender, packetInfo.Receiver)
+//@   modifies world(ctx)
+//@   ensures blacklisted_rejected: k.IsDenomBlacklisted(ctx, denom) ==> err != nil && world(ctx) == old(world(ctx))
+//@   ensures rejected_unchanged: err != nil ==> world(ctx) == old(world(ctx))
+//@   ensures unlimited_untouched: err == nil && !result0 ==> world(ctx) == old(world(ctx))
+//@   ensures updated_only_when_limited: result0 ==> err == nil && limited
+//@   ensures send_within_quota: result0 && direction == types.PACKET_SEND && F0.ChannelValue > 0 && Q.MaxPercentSend >= 0 ==> F0.Outflow - F0.Inflow + amount <= threshold(F0.ChannelValue, Q.MaxPercentSend)
+//@   ensures recv_within_quota: result0 && direction == types.PACKET_RECV && F0.ChannelValue > 0 && Q.MaxPercentRecv >= 0 ==> F0.Inflow - F0.Outflow + amount <= threshold(F0.ChannelValue, Q.MaxPercentRecv)
+//@   ensures over_quota_rejected: !k.IsDenomBlacklisted(ctx, denom) && limited && direction == types.PACKET_SEND && F0.ChannelValue > 0 && Q.MaxPercentSend >= 0 && F0.Outflow - F0.Inflow + amount > threshold(F0.ChannelValue, Q.MaxPercentSend) ==> err != nil
+//@   ensures flow_persisted: result0 ==> has(kv(ctx, k.storeService), rateLimitKey(RL.Path.Denom, RL.Path.ChannelOrClientId)) && get(kv(ctx, k.storeService), rateLimitKey(RL.Path.Denom, RL.Path.ChannelOrClientId)) == marshalOf(RL)
+//@   ensures only_rate_limit_key_written: result0 ==> onlyKeyChanged(old(world(ctx)), world(ctx), rateLimitKey(RL.Path.Denom, RL.Path.ChannelOrClientId))
